@@ -101,6 +101,8 @@ pub fn run(prop: &str, leg: &str, ctx: &Ctx, rep: &mut Report) -> bool {
         ("C17", "u32-field") => c17::u32_field(ctx, rep),
         ("C09", "blocks") => c09::blocks(ctx, rep),
         ("C09", "totality") => c09::totality(ctx, rep),
+        ("C09", "deep-rejection") => c09::deep_rejection(ctx, rep),
+        ("C09", "deep-child") => c09::deep_child(ctx, rep),
         ("C09", "distribution") => c09::distribution(ctx, rep),
         ("C09", "in-situ") => c09::in_situ(ctx, rep),
         ("C11", "tables") => c11::tables(ctx, rep),
